@@ -415,11 +415,42 @@ func emissionSweep(res *ev.Result) {
 	res.Axis("emitted RTU frames: request sizes over the whole accepted count axis, response payload lengths 1..250, all 256x256 exceptions", "full", n)
 }
 
+// specialStates: from the remainders 0x0000, 0x0001, 0x8000, 0xFFFF, 0xA001 and the catalogue check value (each reached
+// through the implementation by the 2-byte prefix that leads to it) every 2-byte continuation and every 3-byte
+// continuation with a zero in the middle is executed: an implementation that treats a zero remainder or zero bytes
+// specially (skipping, caching, early exit) differs here although every single transition is right.
+func specialStates(res *ev.Result) {
+	prefixOf := map[uint16][2]byte{}
+	for a := 0; a < 256; a++ {
+		for b := 0; b < 256; b++ {
+			prefixOf[packet.CRC16([]byte{byte(a), byte(b)})] = [2]byte{byte(a), byte(b)}
+		}
+	}
+	n := int64(0)
+	for _, st := range []uint16{0x0000, 0x0001, 0x8000, 0xFFFF, 0xA001, 0x4B37} {
+		p, ok := prefixOf[st]
+		if !ok {
+			continue // (the state search reports a non-bijective CRC16 on its own)
+		}
+		for b1 := 0; b1 < 256; b1++ {
+			for b2 := 0; b2 < 256; b2++ {
+				for _, msg := range [][]byte{{p[0], p[1], byte(b1), byte(b2)}, {p[0], p[1], byte(b1), 0, byte(b2)}, {p[0], p[1], 0, 0, byte(b1), byte(b2)}} {
+					n++
+					checkCRC(msg, res, "special-state")
+				}
+			}
+		}
+	}
+	res.Add("evaluations", n)
+	res.Axis("continuations from 6 special remainders", "all 2-byte continuations, with and without interposed zero bytes", n)
+}
+
 func run(tier string, shard, nsh int, res *ev.Result) {
 	if err := spec.SelfCheck(); err != nil {
 		panic(err)
 	}
 	emissionSweep(res)
+	specialStates(res)
 	stateSearch(res)
 	res.Axis("crc state x input byte (transitions executed on packet.CRC16)", "full", 1<<24)
 	foldCheck(res, 600)
